@@ -393,7 +393,10 @@ func runC14(c *mon.Ctx) {
 		refts.EncodeDescriptor(lw, sent)
 		// a second loop entry follows the loop: it must be found at the right offset too
 		loop := append([]byte{0xF0 | byte(lw.Len()>>8), byte(lw.Len())}, lw.B...)
+		// what follows the loop: enough bytes for any body parser that reads past a too short declared length (it is pulled back to
+		// the declared end afterwards) not to hit the end of the buffer
 		in := append(append([]byte{}, loop...), 0xDE, 0xAD)
+		in = append(in, bytes.Repeat([]byte{0x5a}, 1100)...)
 		cls := tagClass(d.Tag) + ":" + kind
 		data := map[string]any{"loop": mon.Hex(loop, 700), "malformed_tag": fmt.Sprintf("%#02x", d.Tag)}
 		var got []*astits.Descriptor
@@ -406,7 +409,11 @@ func runC14(c *mon.Ctx) {
 		c.Count("malformed_length_cases")
 		c.Count("malformed_" + kind)
 		if gerr != nil {
+			// the loop is consistent (the declared lengths add up to its length) and nothing runs out of bytes: a body that is
+			// shorter or longer than its tag implies is skipped by its declared length, not a reason to lose the whole loop — and an
+			// error here is what a parse that went on from the wrong place usually ends in
 			c.Count("malformed_rejected_with_error")
+			c.Violate("C14/malformed/error-instead-of-skipping:"+cls, "malformed", i, gerr.Error(), data)
 			c.Case(mon.HashBytes("malformed", loop), true)
 			continue
 		}
